@@ -659,6 +659,13 @@ fn exec(plan: &Plan, st: &mut ExecStats) -> Result<(), Viol> {
     let all_bits = unpack(&data);
     match plan.window {
         None => {
+            // every third and fourth plan reads through the library's own `From` constructors
+            // (owned vector, borrowed slice) instead of the simulated source
+            match plan.rops.len() % 4 {
+                2 => return read_phase(plan, BitIter::from(data.clone()), &all_bits, false, st),
+                3 => return read_phase(plan, BitIter::from(&data[..]), &all_bits, false, st),
+                _ => {}
+            }
             let (src, pulls) = SimStream::new(data.clone());
             let it = BitIter::new(src);
             read_phase(plan, it, &all_bits, false, st)?;
@@ -968,6 +975,11 @@ fn read_phase<I: Iterator<Item = u8> + ExactSizeIterator>(
         let r = rest.iter().copied().try_collect_bytes();
         if r.is_ok() != (rest.len() % 8 == 0) {
             return Err(v("reader-bits", "try_collect_bytes", format!("try_collect_bytes on {} bits: {:?}", rest.len(), r.is_ok())));
+        }
+        if let Ok(b) = &r {
+            if *b != pack(rest) {
+                return Err(v("reader-bits", "try_collect_bytes", format!("try_collect_bytes gave {}, want {}", hex(b), hex(&pack(rest)))));
+            }
         }
     } else if plan.close && !skip_close {
         let rest = &bits[p..];
